@@ -42,6 +42,11 @@ def _model(E, templates):
             from cobra.util.solver import fix_objective_as_constraint
             m.objective_direction = direction
             fix_objective_as_constraint(m)
+            if E.flag("objective_edited_in_place_afterwards"):
+                # the same objective object (same name) with other coefficients: pfba must fix *this* objective
+                obj = {r: 2 * c for r, c in obj.items()}
+                for r, c in obj.items():
+                    m.reactions.get_by_id(r).objective_coefficient = c
     networks.symbolic_bounds(E, m, which=(ids if w is None else ids[:w]))
     E.note(template=tid, objective=obj, direction=direction)
     return m, obj, direction, ids
